@@ -7,7 +7,7 @@ import (
 	"os"
 	"strconv"
 
-	_ "pvh/internal/checks"
+	"pvh/internal/checks"
 	"pvh/internal/core"
 )
 
@@ -39,6 +39,12 @@ func main() {
 		os.Exit(core.ChildMain(os.Args[2], *tier, *seed, *shard, *of, *out))
 	case "replay":
 		os.Exit(core.ReplayMain(os.Args[2], os.Args[3]))
+	case "gengolden":
+		// pvh gengolden <dir> <version label>: writes the golden corpus with the pogreb version linked in
+		if err := checks.GenGolden(os.Args[2], os.Args[3]); err != nil {
+			fmt.Fprintln(os.Stderr, err)
+			os.Exit(1)
+		}
 	case "case":
 		// pvh case <ID> <tier> <seed> <idx>: run one case in-process (debugging aid)
 		seed, _ := strconv.ParseInt(os.Args[4], 10, 64)
